@@ -107,8 +107,26 @@ def k_c15(ctx):
     HA = ["Stock Plan Activity", "Buy", "Sell", "Cancel Sell", "Stock Split", "Qualified Dividend", "NRA Tax Adj", "NRA Withholding", "Cash Dividend", "Wire Sent", "Unknown Thing", ""]
     HDV = ["01/03/-262143", "01/01/-262143", "01/08/-262143", "12/31/262142", "12/25/262142", "01/01/0001", "01/05/0001", "12/31/9999", "02/29/2024", "06/15/2024", "06/15/2024", "01/05/2024 as of 12/31/2023"]
     HQV = ["10", "1", "$1,234.56", "0.5", "1,000", "$12.34", "79228162514264337593543950335", "0.0000000000000000000000000001"]
-    def hd(): return rng.choice(HDV) if rng.random() < 0.8 else rng.choice(HD)
-    def hq(): return rng.choice(HQV) if rng.random() < 0.8 else rng.choice(HQ)
+    ASOF = ["03/20/2024 as of", "03/20/2024 as of ", "as of", "as of ", "03/20/2024 as of\u00a003/18/2024", "03/20/2024 as of 03/18", "03/20/2024 as ofX", "as of 03/18/2024",
+            "03/20/2024  as of  03/18/2024", "03/20/2024 AS OF 03/18/2024", "03/20/2024 as of 03/18/2024 as of 03/17/2024", "\u00e9 as of \u00e9"]
+    def garble(t):
+        """a valid field value cut short, or with a multi-byte character put somewhere in it"""
+        if not t: return t
+        r = rng.random(); k = rng.randint(0, len(t))
+        if r < 0.5: return t[:k]
+        if r < 0.8: return t[:k] + rng.choice(["\u00a0", "\u00e9", "\u65e5", "\u20ac"]) + t[k:]
+        return t + rng.choice(["\u00a0", " ", "\t", "\u00e9"])
+    def hd():
+        r = rng.random()
+        if r < 0.72: return rng.choice(HDV)
+        if r < 0.82: return rng.choice(ASOF)
+        if r < 0.90: return garble(rng.choice(HDV))
+        return rng.choice(HD)
+    def hq():
+        r = rng.random()
+        if r < 0.78: return rng.choice(HQV)
+        if r < 0.86: return garble(rng.choice(HQV))
+        return rng.choice(HQ)
     sc = {}
     for i in range(ctx.n(600, 20000)):
         rows = []
@@ -210,6 +228,10 @@ def big_ledger(rng, nsec, nyears):
         for t in rng.sample(ticks, min(len(ticks), rng.randint(2, 6))):     # many disposals on one date
             ls.append(Line(d, t, "SELL", rng.choice(["1", "5", "10"]), rng.choice(gen.PRICE), "GBP", rng.choice(gen.FEES)))
         if rng.random() < 0.5: ls.append(Line(d, rng.choice(ticks), "DIVIDEND", None, "5", "GBP", None))
+    if rng.random() < 0.4:      # one crowded tax year: every security sold on each of several dates (dozens of disposals in one year)
+        y = y0 + rng.randint(0, nyears - 1)
+        for dd in rng.sample([datetime.date(y, 6, 1), datetime.date(y, 7, 15), datetime.date(y, 9, 30), datetime.date(y, 12, 1), datetime.date(y + 1, 2, 2), datetime.date(y + 1, 4, 5)], rng.randint(3, 6)):
+            for t in ticks: ls.append(Line(dd, t, "SELL", rng.choice(["1", "2"]), rng.choice(gen.PRICE), "GBP", None))
     rng.shuffle(ls)
     return ls
 
